@@ -78,8 +78,12 @@ func genC03(g *G, n int, out io.Writer) {
 		c.Config = C03Config{
 			IncludeDate:   g.coin(0.5),
 			Time:          fmt.Sprintf("20%02d-0%d-1%dT0%d:%02d:%02d%s", g.n(30), 1+g.n(9), g.n(9), g.n(9), g.n(60), g.n(60), g.pick([]string{"Z", "Z", "+02:00", "-08:00", "+05:30", "-00:30", "+14:00"})),
+
 			ReportSchema:  g.pick([]string{"file:///dialects/validation-report.yaml", "http://x.org/r", ""}),
 			LexicalSchema: g.pick([]string{"file:///dialects/lexical.yaml", "http://x.org/l"}),
+		}
+		if g.coin(0.12) {
+			c.Config.Time = g.pick([]string{"0001-01-01T00:00:00Z", "1970-01-01T00:00:00Z", "9999-12-31T23:59:59Z"})
 		}
 		c.Entry = []int{2, 3, 2, 3, 0, 1}[i%6]
 		c.Debug = g.coin(0.15)
